@@ -518,8 +518,15 @@ impl LdapConnAsync {
         if let Some(url_port) = url.port() {
             port = url_port;
         }
+        // The brackets around an IPv6 literal are needed for the socket address, but they
+        // aren't a part of the name to be matched against the server's certificate.
         let (_hostname, host_port) = match url.host_str() {
-            Some(h) if !h.is_empty() => (h, format!("{}:{}", h, port)),
+            Some(h) if !h.is_empty() => (
+                h.strip_prefix('[')
+                    .and_then(|h| h.strip_suffix(']'))
+                    .unwrap_or(h),
+                format!("{}:{}", h, port),
+            ),
             _ => ("localhost", format!("localhost:{}", port)),
         };
         let stream = match settings.std_stream {
